@@ -1,0 +1,254 @@
+//go:build verif
+
+package mapdb
+
+// Contracts for the in-memory KVStore (properties C04 and C05), read by the verification
+// machinery in /verif. Comment-only file.
+//
+// The model is the Go map itself: M = s.m.m : string -> []byte, one per store, shared by all
+// views; a view with realm r works on the keys cat(r, key). Byte strings are abstract (str(b) /
+// content(b)); cat is concatenation, hasprefix(s, p) the prefix relation.
+//
+// Locks (levels for the lock-order obligations): batch 1 < view (mapDB) 2 < shared map 3.
+// The contents of the shared map are guarded by the shared map's RWMutex (guarded-by obligations
+// at every map access), so every primitive touches M inside exactly one critical section.
+
+/*@
+type syncedKVMap
+  monitor RWMutex level 3 guards map:m
+
+type mapDB
+  monitor RWMutex level 2 guards
+
+func syncedKVMap.has
+  opt sequential
+  requires s != nil && s.m != nil && unlocked(s.RWMutex)
+  ensures r0 <==> has(s.m, str(key))
+  ensures unlocked(s.RWMutex)
+
+func syncedKVMap.get
+  opt sequential
+  requires s != nil && s.m != nil && unlocked(s.RWMutex)
+  ensures r1 <==> has(s.m, str(key))
+  ensures r1 ==> content(r0) == content(s.m[str(key)]) && fresh(r0)         -- reads return private copies
+  ensures unlocked(s.RWMutex)
+
+func syncedKVMap.set
+  opt sequential
+  requires s != nil && s.m != nil && unlocked(s.RWMutex)
+  modifies map(s.m)
+  ensures has(s.m, str(key)) && content(s.m[str(key)]) == content(value) && fresh(s.m[str(key)])   -- the store keeps a private copy
+  ensures forall k Str :: k != str(key) ==> (has(s.m, k) <==> old(has(s.m, k))) && s.m[k] == old(s.m[k])
+  ensures unlocked(s.RWMutex)
+
+func syncedKVMap.delete
+  opt sequential
+  requires s != nil && s.m != nil && unlocked(s.RWMutex)
+  modifies map(s.m)
+  ensures !has(s.m, str(key))
+  ensures forall k Str :: k != str(key) ==> (has(s.m, k) <==> old(has(s.m, k))) && s.m[k] == old(s.m[k])
+  ensures unlocked(s.RWMutex)
+
+-- removes exactly the keys that carry the prefix (map-range loop: every key still in the map when the
+-- loop ends has been visited, and visited keys with the prefix were deleted)
+func syncedKVMap.deletePrefix
+  opt sequential
+  requires s != nil && s.m != nil && unlocked(s.RWMutex)
+  modifies map(s.m)
+  loop 1 invariant held(s.RWMutex) && (forall k Str :: has(s.m, k) ==> old(has(s.m, k)) && s.m[k] == old(s.m[k]))
+  loop 1 invariant forall k Str :: old(has(s.m, k)) && !hasprefix(k, str(keyPrefix)) ==> has(s.m, k)
+  loop 1 invariant forall k Str :: visited(k) && hasprefix(k, str(keyPrefix)) ==> !has(s.m, k)
+  ensures forall k Str :: has(s.m, k) <==> old(has(s.m, k)) && !hasprefix(k, str(keyPrefix))
+  ensures forall k Str :: has(s.m, k) ==> s.m[k] == old(s.m[k])
+  ensures unlocked(s.RWMutex)
+
+-- views: every operation works on cat(realm, key) of the shared map; a closed store fails with
+-- ErrStoreClosed and changes nothing. wf(s): the view's pointers are set up.
+func NewMapDB
+  ensures r0 != nil
+
+func mapDB.Get
+  opt sequential
+  requires s != nil && s.m != nil && s.m.m != nil && s.closed != nil && unlocked(s.RWMutex) && unlocked(s.m.RWMutex)
+  ensures aload(s.closed) ==> r1 == kvstore.ErrStoreClosed
+  ensures !aload(s.closed) && has(s.m.m, cat(str(s.realm), str(key))) ==> r1 == nil && content(r0) == content(s.m.m[cat(str(s.realm), str(key))]) && fresh(r0)
+  ensures !aload(s.closed) && !has(s.m.m, cat(str(s.realm), str(key))) ==> r1 == kvstore.ErrKeyNotFound
+  ensures unlocked(s.RWMutex) && unlocked(s.m.RWMutex)
+
+func mapDB.Has
+  opt sequential
+  requires s != nil && s.m != nil && s.m.m != nil && s.closed != nil && unlocked(s.RWMutex) && unlocked(s.m.RWMutex)
+  ensures aload(s.closed) ==> r1 == kvstore.ErrStoreClosed && !r0
+  ensures !aload(s.closed) ==> r1 == nil && (r0 <==> has(s.m.m, cat(str(s.realm), str(key))))
+  ensures unlocked(s.RWMutex) && unlocked(s.m.RWMutex)
+
+func mapDB.set
+  opt sequential
+  requires s != nil && s.m != nil && s.m.m != nil && unlocked(s.m.RWMutex)
+  modifies map(s.m.m)
+  ensures r0 == nil
+  ensures has(s.m.m, cat(str(s.realm), str(key))) && content(s.m.m[cat(str(s.realm), str(key))]) == content(value) && fresh(s.m.m[cat(str(s.realm), str(key))])
+  ensures forall k Str :: k != cat(str(s.realm), str(key)) ==> (has(s.m.m, k) <==> old(has(s.m.m, k))) && s.m.m[k] == old(s.m.m[k])
+  ensures unlocked(s.m.RWMutex)
+
+func mapDB.delete
+  opt sequential
+  requires s != nil && s.m != nil && s.m.m != nil && unlocked(s.m.RWMutex)
+  modifies map(s.m.m)
+  ensures r0 == nil && !has(s.m.m, cat(str(s.realm), str(key)))
+  ensures forall k Str :: k != cat(str(s.realm), str(key)) ==> (has(s.m.m, k) <==> old(has(s.m.m, k))) && s.m.m[k] == old(s.m.m[k])
+  ensures unlocked(s.m.RWMutex)
+
+func mapDB.Set
+  opt sequential
+  requires s != nil && s.m != nil && s.m.m != nil && s.closed != nil && unlocked(s.RWMutex) && unlocked(s.m.RWMutex)
+  modifies map(s.m.m)
+  ensures aload(s.closed) ==> r0 == kvstore.ErrStoreClosed && (forall k Str :: (has(s.m.m, k) <==> old(has(s.m.m, k))) && s.m.m[k] == old(s.m.m[k]))
+  ensures !aload(s.closed) ==> r0 == nil && has(s.m.m, cat(str(s.realm), str(key))) && content(s.m.m[cat(str(s.realm), str(key))]) == content(value) && fresh(s.m.m[cat(str(s.realm), str(key))])
+  ensures forall k Str :: k != cat(str(s.realm), str(key)) ==> (has(s.m.m, k) <==> old(has(s.m.m, k))) && s.m.m[k] == old(s.m.m[k])
+  ensures unlocked(s.RWMutex) && unlocked(s.m.RWMutex)
+
+func mapDB.Delete
+  opt sequential
+  requires s != nil && s.m != nil && s.m.m != nil && s.closed != nil && unlocked(s.RWMutex) && unlocked(s.m.RWMutex)
+  modifies map(s.m.m)
+  ensures aload(s.closed) ==> r0 == kvstore.ErrStoreClosed && (forall k Str :: (has(s.m.m, k) <==> old(has(s.m.m, k))) && s.m.m[k] == old(s.m.m[k]))
+  ensures !aload(s.closed) ==> r0 == nil && !has(s.m.m, cat(str(s.realm), str(key)))
+  ensures forall k Str :: k != cat(str(s.realm), str(key)) ==> (has(s.m.m, k) <==> old(has(s.m.m, k))) && s.m.m[k] == old(s.m.m[k])
+  ensures unlocked(s.RWMutex) && unlocked(s.m.RWMutex)
+
+func mapDB.DeletePrefix
+  opt sequential
+  requires s != nil && s.m != nil && s.m.m != nil && s.closed != nil && unlocked(s.RWMutex) && unlocked(s.m.RWMutex)
+  modifies map(s.m.m)
+  ensures aload(s.closed) ==> r0 == kvstore.ErrStoreClosed && (forall k Str :: (has(s.m.m, k) <==> old(has(s.m.m, k))) && s.m.m[k] == old(s.m.m[k]))
+  ensures !aload(s.closed) ==> r0 == nil && (forall k Str :: has(s.m.m, k) <==> old(has(s.m.m, k)) && !hasprefix(k, cat(str(s.realm), str(prefix))))
+  ensures forall k Str :: has(s.m.m, k) ==> s.m.m[k] == old(s.m.m[k])
+  ensures unlocked(s.RWMutex) && unlocked(s.m.RWMutex)
+
+func mapDB.Clear
+  opt sequential
+  requires s != nil && s.m != nil && s.m.m != nil && s.closed != nil && unlocked(s.RWMutex) && unlocked(s.m.RWMutex)
+  modifies map(s.m.m)
+  ensures aload(s.closed) ==> r0 == kvstore.ErrStoreClosed && (forall k Str :: (has(s.m.m, k) <==> old(has(s.m.m, k))) && s.m.m[k] == old(s.m.m[k]))
+  ensures !aload(s.closed) ==> r0 == nil && (forall k Str :: has(s.m.m, k) <==> old(has(s.m.m, k)) && !hasprefix(k, str(s.realm)))
+  ensures forall k Str :: has(s.m.m, k) ==> s.m.m[k] == old(s.m.m[k])
+  ensures unlocked(s.RWMutex) && unlocked(s.m.RWMutex)
+
+func mapDB.Flush
+  opt sequential
+  requires s != nil && s.closed != nil
+  ensures aload(s.closed) <==> r0 == kvstore.ErrStoreClosed
+  ensures !aload(s.closed) ==> r0 == nil
+
+func mapDB.Close
+  opt sequential
+  requires s != nil && s.closed != nil
+  modifies atomic(s.closed)
+  ensures aload(s.closed) && r0 == nil
+
+func mapDB.Realm
+  requires s != nil
+  ensures content(r0) == str(s.realm) && fresh(r0)
+
+-- a view shares the map and the closed flag of its parent and prepends its realm
+func mapDB.WithRealm
+  opt sequential
+  requires s != nil && s.closed != nil
+  ensures aload(s.closed) ==> r1 == kvstore.ErrStoreClosed && r0 == nil
+  ensures !aload(s.closed) ==> r1 == nil && r0 != nil && typeof(r0) == typeid(*mapDB) && unbox(*mapDB, r0).m == s.m && unbox(*mapDB, r0).closed == s.closed && unbox(*mapDB, r0).realm == realm && fresh(unbox(*mapDB, r0))
+
+func mapDB.WithExtendedRealm
+  opt sequential
+  requires s != nil && s.closed != nil
+  ensures aload(s.closed) ==> r1 == kvstore.ErrStoreClosed && r0 == nil
+  ensures !aload(s.closed) ==> r1 == nil && r0 != nil && typeof(r0) == typeid(*mapDB) && unbox(*mapDB, r0).m == s.m && unbox(*mapDB, r0).closed == s.closed && str(unbox(*mapDB, r0).realm) == cat(str(s.realm), str(realm)) && fresh(unbox(*mapDB, r0)) && fresh(unbox(*mapDB, r0).realm)
+
+-- batches: setOperations / deleteOperations are kept disjoint, so the last operation per key wins
+type batchedMutations
+  monitor Mutex level 1 guards setOperations, deleteOperations, map:setOperations, map:deleteOperations
+  invariant self.setOperations != nil && self.deleteOperations != nil
+  invariant forall k Str :: !(has(self.setOperations, k) && has(self.deleteOperations, k))
+
+func mapDB.Batched
+  opt sequential
+  requires s != nil && s.closed != nil
+  ensures aload(s.closed) ==> r1 == kvstore.ErrStoreClosed && r0 == nil
+  ensures !aload(s.closed) ==> r1 == nil && r0 != nil && typeof(r0) == typeid(*batchedMutations) && unbox(*batchedMutations, r0).kvStore == s && unbox(*batchedMutations, r0).closed == s.closed
+  ensures !aload(s.closed) ==> forall k Str :: !has(unbox(*batchedMutations, r0).setOperations, k) && !has(unbox(*batchedMutations, r0).deleteOperations, k)
+
+func batchedMutations.Set
+  opt sequential
+  requires b != nil && unlocked(b.Mutex)
+  modifies map(b.setOperations), map(b.deleteOperations)
+  ensures r0 == nil && has(b.setOperations, str(key)) && b.setOperations[str(key)] == value && !has(b.deleteOperations, str(key))
+  ensures forall k Str :: k != str(key) ==> (has(b.setOperations, k) <==> old(has(b.setOperations, k))) && b.setOperations[k] == old(b.setOperations[k]) && (has(b.deleteOperations, k) <==> old(has(b.deleteOperations, k)))
+  ensures unlocked(b.Mutex)
+
+func batchedMutations.Delete
+  opt sequential
+  requires b != nil && unlocked(b.Mutex)
+  modifies map(b.setOperations), map(b.deleteOperations)
+  ensures r0 == nil && has(b.deleteOperations, str(key)) && !has(b.setOperations, str(key))
+  ensures forall k Str :: k != str(key) ==> (has(b.setOperations, k) <==> old(has(b.setOperations, k))) && b.setOperations[k] == old(b.setOperations[k]) && (has(b.deleteOperations, k) <==> old(has(b.deleteOperations, k)))
+  ensures unlocked(b.Mutex)
+
+func batchedMutations.Cancel
+  opt sequential
+  requires b != nil && unlocked(b.Mutex)
+  modifies b.setOperations, b.deleteOperations
+  ensures forall k Str :: !has(b.setOperations, k) && !has(b.deleteOperations, k)
+  ensures unlocked(b.Mutex)
+
+-- Commit: a closed store refuses and changes nothing; otherwise the writes happen inside the view's write
+-- section, holding the locks in the order batch < view < shared map
+func batchedMutations.Commit
+  opt sequential
+  requires b.setOperations != b.kvStore.m.m                      -- the batch keeps its own maps (Batched() allocates them)
+  requires b != nil && b.closed != nil && b.kvStore != nil && b.kvStore.m != nil && b.kvStore.m.m != nil && unlocked(b.Mutex) && unlocked(b.kvStore.RWMutex) && unlocked(b.kvStore.m.RWMutex)
+  modifies map(b.kvStore.m.m)
+  loop 1 invariant held(b.Mutex) && held(b.kvStore.RWMutex) && unlocked(b.kvStore.m.RWMutex)
+  loop 2 invariant held(b.Mutex) && held(b.kvStore.RWMutex) && unlocked(b.kvStore.m.RWMutex)
+  ensures aload(b.closed) ==> r0 == kvstore.ErrStoreClosed && (forall k Str :: (has(b.kvStore.m.m, k) <==> old(has(b.kvStore.m.m, k))) && b.kvStore.m.m[k] == old(b.kvStore.m.m[k]))
+  ensures !aload(b.closed) ==> r0 == nil
+  ensures unlocked(b.Mutex) && unlocked(b.kvStore.RWMutex) && unlocked(b.kvStore.m.RWMutex)
+
+-- iteration: the matching entries are copied inside ONE read section of the shared map (the snapshot),
+-- the consumer runs after the lock was released and receives keys with the realm stripped (in bounds,
+-- because every snapshot key carries cat(realm, prefix)). The order of delivery is utils.SortSlice's (assumed).
+func syncedKVMap.iterateKeys
+  requires s != nil && s.m != nil && unlocked(s.RWMutex)
+  callback consume(k) (cont)
+    opt nolocks
+  modifies monitor(s)
+  loop 1 invariant rheld(s.RWMutex) && copiedElements != nil && fresh(copiedElements) && (forall k Str :: has(copiedElements, k) ==> hasprefix(k, prefix))
+  loop 2 invariant unlocked(s.RWMutex) && fresh(keysSlice) && (forall i Int :: 0 <= i && i < len(keysSlice) ==> hasprefix(keysSlice[i], prefix))
+  loop 3 invariant unlocked(s.RWMutex)
+  ensures unlocked(s.RWMutex)
+
+func syncedKVMap.iterate
+  requires s != nil && s.m != nil && unlocked(s.RWMutex)
+  callback consume(k, v) (cont)
+    opt nolocks
+  modifies monitor(s)
+  loop 1 invariant rheld(s.RWMutex) && copiedElements != nil && fresh(copiedElements) && (forall k Str :: has(copiedElements, k) ==> hasprefix(k, prefix))
+  loop 2 invariant unlocked(s.RWMutex) && fresh(keysSlice) && (forall i Int :: 0 <= i && i < len(keysSlice) ==> hasprefix(keysSlice[i], prefix))
+  loop 3 invariant unlocked(s.RWMutex)
+  ensures unlocked(s.RWMutex)
+
+func mapDB.Iterate
+  opt sequential
+  requires s != nil && s.m != nil && s.m.m != nil && s.closed != nil && unlocked(s.RWMutex) && unlocked(s.m.RWMutex)
+  callback consumerFunc(k, v) (cont)
+  modifies monitor(s.m)
+  ensures aload(s.closed) <==> r0 == kvstore.ErrStoreClosed
+  ensures !aload(s.closed) ==> r0 == nil
+
+func mapDB.IterateKeys
+  opt sequential
+  requires s != nil && s.m != nil && s.m.m != nil && s.closed != nil && unlocked(s.RWMutex) && unlocked(s.m.RWMutex)
+  callback consumerFunc(k) (cont)
+  modifies monitor(s.m)
+  ensures aload(s.closed) <==> r0 == kvstore.ErrStoreClosed
+  ensures !aload(s.closed) ==> r0 == nil
+@*/
